@@ -15,7 +15,7 @@ From Irismod Require Import Htlc.Model Htlc.Proofs Htlc.Examples Htlc.Check Htlc
     genesis and is preserved by every message and every block boundary) *)
 Theorem inv_C04_reachable :
   forall (P : list aparam) (b : ledger) (t0 : Z) (ops : list op),
-    params_ok P -> escrow_empty b -> Forall wf_op ops ->
+    params_ok P -> escrow_empty b -> wf_run (init P b t0) ops ->
     Inv_C04 (reachable P b t0 ops).
 Proof. intros P b t0 ops HP HE W. exact (Inv_C04_of_Inv _ (proj1 (reach_inv P b t0 ops HP HE W))). Qed.
 Print Assumptions inv_C04_reachable.
@@ -25,7 +25,7 @@ Proof. exact init_inv. Qed.
 Print Assumptions inv_C04_initial.
 
 Theorem inv_C04_step :
-  forall s o, Inv s -> Strict s -> wf_op o -> Inv (step s o) /\ Strict (step s o) /\ st_params (step s o) = st_params s.
+  forall s o, Inv s -> Strict s -> wf_op s o -> Inv (step s o) /\ Strict (step s o) /\ st_params (step s o) = params_after s o.
 Proof. exact step_inv. Qed.
 Print Assumptions inv_C04_step.
 
@@ -115,8 +115,7 @@ Proof. vm_compute. reflexivity. Qed.
     satisfies the invariant, hence all of the above. *)
 Theorem c04_checked_states_satisfy_invariant :
   forall (k : case) (n : nat), hyps_b k = true ->
-    Inv (case_state k n) /\ Strict (case_state k n) /\ Inv_C04 (case_state k n)
-    /\ st_params (case_state k n) = k_params k.
+    Inv (case_state k n) /\ Strict (case_state k n) /\ Inv_C04 (case_state k n).
 Proof. exact checked_states_satisfy_invariant. Qed.
 Print Assumptions c04_checked_states_satisfy_invariant.
 
@@ -142,8 +141,8 @@ Print Assumptions inv_core_of_invariant.
 (** the limit inequalities survive a change whose new limits cover the current usage ([covers]; e.g.
     limits only raised: [raise_covers]); then the whole invariant holds again, for every history after it *)
 Theorem inv_C04_after_compatible_param_change :
-  forall s P' ops, Inv s -> Strict s -> same_denoms (st_params s) P' -> covers s P' -> Forall wf_op ops ->
-    Inv (run (set_params s P') ops) /\ Strict (run (set_params s P') ops) /\ st_params (run (set_params s P') ops) = P'.
+  forall s P' ops, Inv s -> Strict s -> same_denoms (st_params s) P' -> covers s P' -> wf_run (set_params s P') ops ->
+    Inv (run (set_params s P') ops) /\ Strict (run (set_params s P') ops).
 Proof. exact run_after_compatible_param_change. Qed.
 Print Assumptions inv_C04_after_compatible_param_change.
 
@@ -195,13 +194,23 @@ Proof. split; [exact exCase_hyps|]. split; [exact exCase_table|]. split; [exact 
 (** ** Non-vacuity: the concrete history of [Htlc/Examples.v] satisfies the hypotheses and reaches
     non-trivial values of every counter (an incoming transfer of 200 is pending, then completed;
     an outgoing one of 50 is pending, then refunded). *)
-Example c04_hypotheses_satisfiable : params_ok exP /\ escrow_empty exB /\ Forall wf_op exOps.
+Example c04_hypotheses_satisfiable : params_ok exP /\ escrow_empty exB /\ wf_run (init exP exB (ts0 * ns)) exOps.
 Proof.
   split; [|split].
   - repeat constructor; simpl; lia.
   - intros d. reflexivity.
-  - repeat constructor; simpl; discriminate.
+  - apply wf_run_b_sound. vm_compute. reflexivity.
 Qed.
+
+(** a history WITH parameter changes satisfies the hypotheses: the authority's change raises the limits
+    while an incoming transfer is completed and an outgoing one is pending (compatible), a stranger's
+    and an invalid change are rejected; afterwards the raised set is in force *)
+Example c04_history_with_param_changes :
+  wf_run (init exP exB (ts0 * ns)) exOps2
+  /\ map (fun n => step_ok (reachable exP exB (ts0 * ns) (firstn n exOps2)) (nth n exOps2 (Adv []))) [7; 8; 9]%nat
+     = [true; false; false]
+  /\ st_params (reachable exP exB (ts0 * ns) exOps2) = exRaise.
+Proof. split; [apply wf_run_b_sound; vm_compute; reflexivity|]. split; vm_compute; reflexivity. Qed.
 
 Example c04_history_counters :
   map (fun n => let s := reachable exP exB (ts0 * ns) (firstn n exOps) in
